@@ -275,6 +275,16 @@ def replay(path):
         print("impl   ", a)
         print("model  ", b)
         print("property predicate on impl outcome (datetime | ParserError | OverflowError):", PC.allowed_outcome(a))
+    elif isinstance(inp, dict) and "bytes_hex" in inp:
+        o = PC.default_opts()
+        o.update(inp.get("opts", {}))
+        o["default"] = tuple(o["default"])
+        o["tzinfos"] = tuplify(o["tzinfos"]) if isinstance(o["tzinfos"], list) else o["tzinfos"]
+        bs = bytes.fromhex(inp["bytes_hex"])
+        print("input  %r (bytes)  opts=%r" % (bs, opts_public(o)))
+        a = PC.run_impl(o, "", text=bs)
+        print("impl   ", a)
+        print("property predicate on impl outcome (datetime | ParserError | OverflowError):", PC.allowed_outcome(a))
     else:
         print("replay names a broken obligation, no concrete input:", json.dumps(data, indent=1)[:2000])
     return 0
